@@ -549,6 +549,7 @@ func TestVerifC07(t *testing.T) {
 		s.Rec.mu.Lock()
 		s.Rec.LoginAuth = nil
 		s.Rec.mu.Unlock()
+		c07PartM(t, res, s, loginSets, &count)
 	}
 	res.Bound("parents", len(parents))
 	res.Bound("param_tuples_policy_product", len(paramsA))
